@@ -24,9 +24,9 @@ PLAN = {
     "C04": {"quick": [("l2flags_q", "gen"), ("l2eps_q", "gen"), ("seq_q", "gen"), ("cfg_q", "gen")],
             "thorough": [("l2flags_t4", "gen"), ("l2flags_t3", "gen"), ("l2eps_t4", "gen"), ("l2eps_t3", "gen"),
                          ("seq_t", "gen"), ("cfg_q", "gen")]},
-    "C12": {"quick": [("lemma", "model"), ("duel", "gen"), ("pair_q", "gen"), ("l2flags_h", "gen"), ("seq_q", "gen")],
+    "C12": {"quick": [("lemma", "model"), ("duel", "gen"), ("pair_q", "gen"), ("l2flags_h", "gen"), ("seq_q", "gen"), ("cfg_q", "gen")],
             "thorough": [("lemma", "model"), ("duel", "gen"), ("pair_t", "gen"), ("l2flags_t3", "gen"), ("l2eps_t4", "gen"),
-                         ("seq_t", "gen")]},
+                         ("seq_t", "gen"), ("cfg_q", "gen")]},
     "C10": {"quick": [("bgpflags_q", "gen"), ("bgpeps9_q", "gen"), ("bgpeps3_q", "gen"), ("bgpepsm_q", "gen"),
                       ("seq_q", "gen"), ("cfg_q", "gen")],
             "thorough": [("bgpflags_t", "gen"), ("bgpeps9_q", "gen"), ("bgpeps3_q", "gen"), ("bgpepsm_q", "gen"),
